@@ -189,6 +189,23 @@ def uses_of(T, built):
     fr = utype.parse(raw_r)
     us = [("field", lambda v: dict.__getitem__(S(x=v), "x")), ("param", lambda v: fp(v)), ("return", lambda v: fr(v)),
           ("transform", lambda v: utype.type_transform(v, ann))]
+    # the same uses with Options(collect_errors=True): it changes how errors are reported, it does not waive the guarantee
+    from utype import Options
+    collect = Options(collect_errors=True)
+    SC = type("HolderC", (Schema,), {"__annotations__": {"x": ann}, "x": Field(), "__options__": collect})
+
+    def raw_pc(x):
+        return x
+    raw_pc.__annotations__ = {"x": ann}
+    fpc = utype.parse(raw_pc, options=collect)
+
+    def raw_rc(x):
+        return x
+    raw_rc.__annotations__ = {"return": ann}
+    frc = utype.parse(raw_rc, options=collect)
+    us += [("field+collect", lambda v: dict.__getitem__(SC(x=v), "x")), ("param+collect", lambda v: fpc(v)), ("return+collect", lambda v: frc(v))]
+    if isinstance(built, LogicalType):
+        us.append(("type+collect", lambda v: built(v, context=collect.make_context())))
     if isinstance(built, LogicalType) or isinstance(built, type) and issubclass(built, Schema):
         us.append(("type", lambda v: built(v) if not (isinstance(built, type) and issubclass(built, Schema)) else built.__from__(v)))
     return us
@@ -316,7 +333,7 @@ def main():
         ck.violation("C01|nonconforming|%s|%s" % (r["shape"], r["use"]), "Conforms", r)
     ck.rule = ("declarations = random descriptors of depth 1-3 over builtin leaves, constrained types (bounds, multiple_of, lengths, enum), "
                "List / constrained List with unique_items / Set / Tuple fixed and variable / Dict, unions, Optional, xor, &, & ~, data classes with "
-               "aliased and optional fields; each used as bare type, field, parameter, return annotation or through type_transform on inputs built "
+               "aliased and optional fields; each used as bare type, field, parameter, return annotation (each also under Options(collect_errors=True)) or through type_transform on inputs built "
                "along the descriptor with noise; only successful parses are judged; distinct_nontrivial = distinct (declaration shape, use, "
                "result type)")
     ck.trusted = ["TLC 1.8", "harness/gen.py (descriptor -> declaration), harness/alpha.py (projection)"]
